@@ -440,12 +440,14 @@ class BaseModel(Generic[MvalT_co], metaclass=ModelsMeta):
         for s in self.sentences:
             atomics.update(s.atomics)
             preds.update(s.predicates)
-        # ensure frames for each world
-        for w in self.R:
-            self.frames[w]
         # ensure R has each world
         for w in self.frames:
             self.R[w]
+        # access restrictions can add a world (serial), do that before completing
+        self.R.enforce()
+        # ensure frames for each world
+        for w in self.R:
+            self.frames[w]
         for w, frame in self.frames.items():
             atomics.update(frame.atomics)
             opaques.update(frame.opaques)
